@@ -1,5 +1,6 @@
 //! Correspondence harness: reads case lines "<id> <kind> ...", runs them against the real
 //! flexi_logger (public API, hooks on) and prints "<id> <observation>" per case.
+mod conc;
 mod flw;
 mod lg;
 mod util;
@@ -33,6 +34,7 @@ fn main() {
             let out = match std::panic::catch_unwind(|| match toks[1] {
                 "flw" => flw::run_case(toks[0], &toks[2..]),
                 "tryfrom" => flw::run_tryfrom(toks[0], &toks[2..]),
+                "conc" => conc::run_conc(toks[0], &toks[2..]),
                 "spec" => lg::run_spec(&toks[2..]),
                 "specb" => lg::run_specb(&toks[2..]),
                 "lg" => lg::run_lg(toks[0], &toks[2..]),
